@@ -155,4 +155,176 @@ theorem grid_hz_strictMono (s t : ℝ) (hst : s < t) (ht : t ≤ (n:ℝ) + 1) :
 
 end Grid
 
+/-! ## 3. constructor range validation -/
+
+/-- the property's rejection clause: `low_hz < 0`, or a positive `high_hz` that is not above `low_hz`
+or lies more than 1 Hz above the Nyquist frequency -/
+def MustReject (low : ℝ) (high : Option ℝ) (rate : ℝ) : Prop :=
+  low < 0 ∨ ∃ h, high = some h ∧ 0 < h ∧ (h ≤ low ∨ rate / 2 + 1 < h)
+
+/-- `TriangularOverlappingFilterBank.__init__` accepts exactly `0 ≤ low < high ≤ rate/2 + 1`
+(`high` defaulting to `rate/2`). -/
+theorem tri_rejects_iff (low : ℝ) (high : Option ℝ) (rate : ℝ) :
+    tri_ctor_rejects low high rate = false ↔
+      0 ≤ low ∧ low < high.getD (rate / 2) ∧ high.getD (rate / 2) ≤ rate / 2 + 1 := by
+  cases high <;> simp [tri_ctor_rejects, Option.getD, and_assoc] <;> norm_num
+
+/-- the other three constructors (`Fbank`, `GaborFilterBank`, `ComplexGammatoneFilterBank`) accept exactly
+`0 ≤ low` with `high` absent, `0`, or `low < high ≤ ⌊rate/2⌋` (`sampling_rate // 2`, not `rate/2 + 1`). -/
+theorem floor_style_rejects_iff (low : ℝ) (high : Option ℝ) (rate : ℝ) :
+    (fbank_ctor_rejects low high rate = false ↔
+      0 ≤ low ∧ ∀ h, high = some h → h ≠ 0 → low < h ∧ h ≤ (⌊rate / 2⌋ : ℝ)) ∧
+    gabor_ctor_rejects low high rate = fbank_ctor_rejects low high rate ∧
+    gammatone_ctor_rejects low high rate = fbank_ctor_rejects low high rate := by
+  refine ⟨?_, rfl, rfl⟩
+  cases high with
+  | none => simp [fbank_ctor_rejects]; norm_num
+  | some h =>
+    simp only [fbank_ctor_rejects, Bool.or_eq_false_iff, decide_eq_false_iff_not, not_lt,
+      Bool.and_eq_false_imp, Bool.or_eq_true, decide_eq_true_eq, not_le, floorI_real,
+      Option.some.injEq, forall_eq']
+    norm_num
+
+theorem floor_half_le (rate : ℝ) : ((⌊rate / 2⌋ : ℤ) : ℝ) ≤ rate / 2 := Int.floor_le _
+
+/-- **range_rejected**, `TriangularOverlappingFilterBank` -/
+theorem tri_range_rejected (sc : Scale ℝ) (n : ℕ) (high : Option ℝ) (low rate : ℝ)
+    (h : MustReject low high rate) : triVertices sc n high low rate = .error "ValueError" := by
+  have : tri_ctor_rejects low high rate = true := by
+    by_contra hc
+    rw [Bool.not_eq_true] at hc
+    have := (tri_rejects_iff low high rate).mp hc
+    rcases h with h | ⟨x, rfl, hx, h | h⟩
+    · linarith
+    · simp only [Option.getD] at this; linarith
+    · simp only [Option.getD] at this; linarith
+  simp [triVertices, this]
+
+theorem floor_style_rejected (high : Option ℝ) (low rate : ℝ) (h : MustReject low high rate) :
+    fbank_ctor_rejects low high rate = true := by
+  by_contra hc
+  rw [Bool.not_eq_true] at hc
+  have := (floor_style_rejects_iff low high rate).1.mp hc
+  have hf := floor_half_le rate
+  rcases h with h | ⟨x, rfl, hx, h | h⟩
+  · linarith
+  · have := this.2 x rfl hx.ne'; linarith
+  · have := this.2 x rfl hx.ne'; linarith
+
+/-- **range_rejected**, `Fbank` -/
+theorem fbank_range_rejected (n : ℕ) (high : Option ℝ) (low rate : ℝ)
+    (h : MustReject low high rate) : fbankVertices n high low rate = .error "ValueError" := by
+  simp [fbankVertices, floor_style_rejected high low rate h]
+
+/-- **range_rejected**, `GaborFilterBank` -/
+theorem gabor_range_rejected (sc : Scale ℝ) (n : ℕ) (high : Option ℝ) (low rate : ℝ) (l2 erb : Bool)
+    (h : MustReject low high rate) : gaborBank sc n high low rate l2 erb = .error "ValueError" := by
+  have := floor_style_rejected high low rate h
+  rw [← (floor_style_rejects_iff low high rate).2.1] at this
+  simp [gaborBank, gaborEdges, this, Except.map]
+
+/-- **range_rejected**, `ComplexGammatoneFilterBank` (a non-positive `order` is rejected too) -/
+theorem gammatone_range_rejected (sc : Scale ℝ) (n : ℕ) (high : Option ℝ) (low rate : ℝ) (order : ℤ)
+    (mc l2 erb : Bool) (h : MustReject low high rate ∨ order ≤ 0) :
+    gammaBank sc n high low rate order mc l2 erb = .error "ValueError" := by
+  rcases h with h | h
+  · have := floor_style_rejected high low rate h
+    rw [← (floor_style_rejects_iff low high rate).2.2] at this
+    simp [gammaBank, gammaEdges, this, Except.map]
+  · have : gammatone_order_rejects order = true := by simp [gammatone_order_rejects, h]
+    simp only [gammaBank, gammaEdges, this]
+    split_ifs <;> rfl
+
+example : MustReject (-1) none 8000 := Or.inl (by norm_num)
+example : MustReject 300 (some 200) 8000 := Or.inr ⟨200, rfl, by norm_num, Or.inl (by norm_num)⟩
+example : MustReject 20 (some 4001.5) 8000 := Or.inr ⟨4001.5, rfl, by norm_num, Or.inr (by norm_num)⟩
+/-- the two validation styles differ between the Nyquist frequency and 1 Hz above it:
+`high_hz = 4000.5` at 8 kHz is accepted by the triangular bank (and clamped) and rejected by the others -/
+example : tri_ctor_rejects (20:ℝ) (some 4000.5) 8000 = false ∧ fbank_ctor_rejects (20:ℝ) (some 4000.5) 8000 = true := by
+  constructor
+  · rw [tri_rejects_iff]; simp only [Option.getD]; norm_num
+  · by_contra hc
+    rw [Bool.not_eq_true] at hc
+    have := ((floor_style_rejects_iff 20 (some 4000.5) 8000).1.mp hc).2 4000.5 rfl (by norm_num)
+    have h2 := floor_half_le 8000
+    norm_num at this h2
+
+/-! ## 4. layout of the constructed banks -/
+
+/-- a list of Hz values placed at steps `off, off+1, …` of the grid -/
+noncomputable def onGrid (sc : Scale ℝ) (lo hi : ℝ) (n m : ℕ) (off : ℝ) : List ℝ :=
+  tabulate m fun i => sc.s2h (gridPos sc lo hi n ((i:ℝ) + off))
+
+theorem triVertices_ok {sc : Scale ℝ} {n : ℕ} {high : Option ℝ} {low rate : ℝ} {vs : List ℝ}
+    (h : triVertices sc n high low rate = .ok vs) :
+    tri_ctor_rejects low high rate = false ∧ vs = onGrid sc low (tri_high high rate) n (n + 2) 0 := by
+  unfold triVertices at h
+  split_ifs at h with hr
+  simp only [Except.ok.injEq] at h
+  refine ⟨by simpa using hr, ?_⟩
+  rw [← h]; unfold onGrid tri_num_vertices
+  congr 1; funext i; rw [tri_vertex_eq]; simp
+
+theorem fbankVertices_ok {n : ℕ} {high : Option ℝ} {low rate : ℝ} {vs : List ℝ}
+    (h : fbankVertices n high low rate = .ok vs) :
+    fbank_ctor_rejects low high rate = false ∧ vs = onGrid .mel low (fbank_high high rate) n (n + 2) 0 := by
+  unfold fbankVertices at h
+  split_ifs at h with hr
+  simp only [Except.ok.injEq] at h
+  refine ⟨by simpa using hr, ?_⟩
+  rw [← h]; unfold onGrid fbank_num_vertices
+  congr 1; funext i; rw [fbank_vertex_eq]; simp
+
+theorem gaborEdges_ok {sc : Scale ℝ} {n : ℕ} {high : Option ℝ} {low rate : ℝ} {es : List ℝ}
+    (h : gaborEdges sc n high low rate = .ok es) :
+    gabor_ctor_rejects low high rate = false ∧ es = onGrid sc low (gabor_high high rate) n (n + 1) (1/2) := by
+  unfold gaborEdges at h
+  split_ifs at h with hr
+  simp only [Except.ok.injEq] at h
+  refine ⟨by simpa using hr, ?_⟩
+  rw [← h]; unfold onGrid gabor_num_edges
+  congr 1; funext i; rw [gabor_edge_eq]
+
+theorem gammaEdges_ok {sc : Scale ℝ} {n : ℕ} {high : Option ℝ} {low rate : ℝ} {order : ℤ} {es : List ℝ}
+    (h : gammaEdges sc n high low rate order = .ok es) :
+    gammatone_ctor_rejects low high rate = false ∧ 0 < order ∧
+      es = onGrid sc low (gammatone_high high rate) n (n + 1) (1/2) := by
+  unfold gammaEdges at h
+  split_ifs at h with hr ho
+  simp only [Except.ok.injEq] at h
+  refine ⟨by simpa using hr, by simpa [gammatone_order_rejects] using ho, ?_⟩
+  rw [← h]; unfold onGrid gammatone_num_edges
+  congr 1; funext i; rw [gammatone_edge_eq]
+
+section OnGrid
+variable {sc : Scale ℝ} {lo hi : ℝ} (ok : ScaleOK sc lo hi) (hlt : lo < hi) (n m : ℕ) (off : ℝ)
+
+@[simp] theorem onGrid_length : (onGrid sc lo hi n m off).length = m := by simp [onGrid]
+
+theorem onGrid_getElem (i : ℕ) (h : i < (onGrid sc lo hi n m off).length) :
+    (onGrid sc lo hi n m off)[i] = sc.s2h (gridPos sc lo hi n ((i:ℝ) + off)) := by
+  simp [onGrid, tabulate_getElem]
+
+include ok hlt in
+/-- positions on the scale are `scale_low + (i + off) * scale_delta` -/
+theorem onGrid_scale (hm : (m:ℝ) - 1 + off ≤ (n:ℝ) + 1) (i : ℕ) (h : i < (onGrid sc lo hi n m off).length) :
+    sc.h2s (onGrid sc lo hi n m off)[i] = sc.h2s lo + ((i:ℝ) + off) * gridStep sc lo hi n := by
+  rw [onGrid_getElem]
+  have hi' : i < m := by simpa using h
+  have : ((i:ℝ) + 1) ≤ m := by exact_mod_cast hi'
+  exact edges_equally_spaced ok hlt n _ (by linarith)
+
+include ok hlt in
+/-- strictly increasing in Hz -/
+theorem onGrid_strictMono (hm : (m:ℝ) - 1 + off ≤ (n:ℝ) + 1) (i j : ℕ) (hij : i < j)
+    (hj : j < (onGrid sc lo hi n m off).length) :
+    (onGrid sc lo hi n m off)[i]'(lt_trans hij hj) < (onGrid sc lo hi n m off)[j] := by
+  rw [onGrid_getElem, onGrid_getElem]
+  have hj' : j < m := by simpa using hj
+  have h1 : ((j:ℝ) + 1) ≤ m := by exact_mod_cast hj'
+  have h2 : (i:ℝ) < j := by exact_mod_cast hij
+  exact grid_hz_strictMono ok hlt n _ _ (by linarith) (by linarith)
+
+end OnGrid
+
 end PdsVerif.C05
